@@ -27,9 +27,9 @@ CLAIMED = {
          T + "fixed-point target recomputation after every triggering block"),
  "C11": ("with minting disabled, the staking-denom supply net of the module's own stake is tracked exactly across every step (unchanged by alliance operations and rebalances, lowered only by real slash burns and by the burn of coins sent to custody), custody must hold no staking denom after end-of-block, staking-denom coins may leave custody only as forwarded rewards, and SupplyOf/TotalSupply (paginated and not) must report supply minus the independently recomputed alliance-bonded amount",
          T + "closed-form net-supply ledger from bank mint/burn/transfer events after every step"),
- "C12": ("after every step, on discarded branches: all pending rewards are settled, every position's entitlement is measured and compared with the pool balance (the deficit must not grow: value-changing events must not inflate accrued entitlements), and all positions claim sequentially in a rotating order; reward flow includes inflation, fee top-ups in several denoms and take-rate proceeds recycled through the fee collector",
+ "C12": ("after every step every position's accrued entitlement (what the reward indexes assign to it now) is summed and compared with the pool balance (the deficit must not grow in any step: value-changing events must not inflate accrued entitlements; growth is excused only up to what the open findings' mechanism explains, computed from the state); on a discarded branch all pending rewards are settled and all positions claim sequentially in a rotating order; reward flow includes inflation, fee top-ups in several denoms and take-rate proceeds recycled through the fee collector",
          T + "solvency deficit measurement and claim-for-everyone probes on discarded branches"),
- "C13": ("eager exact-rational entitlement ledgers credited at every observed settlement (split across assets by weight x tokens/total and across positions by value, from the pre-step state) are compared with the payout of every explicit and implicit claim; second-claim and new-stake probes on discarded branches; runs avoid slashes and take-rate (C12's territory)",
+ "C13": ("eager exact-rational entitlement ledgers credited at every observed settlement (split across assets by weight x tokens/total and across positions by value, from the pre-step state) are compared with the payout of every explicit and implicit claim; second-claim and new-stake probes on discarded branches; nothing may be pending for the module in x/distribution right after a stake change; runs avoid value-changing slashes and take rate (C12's territory) but jail validators without slashing",
          T + "eager reference ledger for reward entitlements vs actual payouts"),
  "C14": ("after every step weights must lie within range; every end-of-block is compared with the stated decay rule (due iff a whole interval elapsed, clamp(w x rate^n) with an 18-digit error bound, clock advance by n intervals), initialisation must flip at the first end-of-block at or after the start time, and right after any weight change (governance or decay) no validator may have rewards pending in x/distribution; block gaps are aimed at the decay boundary",
          T + "closed-form decay reference model, pending-reward probe at every weight change"),
@@ -43,7 +43,7 @@ CLAIMED = {
          T + "lock-step differential of original vs re-imported run"),
  "C19": ("every block is executed on two sibling branches of the committed state and then for real: per-step results, event lists and the raw KV content of the alliance, bank, staking, distribution, slashing and mint stores must be byte-identical; every 8th schedule is re-executed in fresh processes at GOMAXPROCS 1 and 16 and per-block app hashes compared; crash before commit must reproduce the app hash; a go/ast scan of the module's non-test sources (range over map, time.Now, math/rand, go statements, unsafe, %p) only prints informational notes and never decides the check",
          T + "sibling-branch and cross-process re-execution with byte comparison"),
- "C20": ("every unbonding, redelegation and delegation query (all filter combinations, paginated with limits 1/2/3 and unpaginated) and the contract bindings are compared with an independent raw-store enumeration after every step; reported balances are probed for undelegatability on discarded branches",
+ "C20": ("every unbonding, redelegation and delegation query (all filter combinations, default-size pages followed through NextKey, uniform and mixed page sizes) and the contract bindings are compared with an independent raw-store enumeration after every step; reported balances are probed for undelegatability on discarded branches",
          T + "query answers vs raw-store reference enumeration after every step"),
 }
 NA_REASON = "check under construction in this session (its simulator monitor is not committed yet); not a claim that the technique cannot apply"
@@ -60,7 +60,7 @@ for p in props:
             "replay_cmd_template": "./check replay {path}",
             "engine": "verif-sim",
             "level_claimed": {"category": "exploration", "text": text, "design_ref": "DESIGN.md section 5, " + pid},
-            "level_note": "sampling over seeded schedules and fault sequences, not proof; baseapp.runTx and CometBFT are stubbed as described in DESIGN.md 2.1; small worlds (<=8 validators, <=6 delegators, <=4 assets, <=70 blocks per run); open known findings in /verif/known_findings.json are reported as KNOWN-FINDING lines",
+            "level_note": "sampling over seeded schedules and fault sequences, not proof; baseapp.runTx and CometBFT are stubbed as described in DESIGN.md 2.1; small worlds (<=8 validators, <=6 delegators, <=4 assets, <=70 blocks per run; a flood scenario takes counts above 100 in a few percent of the runs of C02, C06-C08, C18, C20); open known findings in /verif/known_findings.json are reported as KNOWN-FINDING lines",
             "technique": tech,
         })
 na = [{"property_id": p['id'], "reason": NA_REASON} for p in props if p['id'] not in CLAIMED]
@@ -75,7 +75,7 @@ m = {
               "kind_free_text": "deterministic whole-application simulator (Go): seeded scheduler owning block time, block packing, votes, evidence, tx aborts, crashes; per-property monitors with exact reference models; ddmin minimiser; replay files"}],
  "checks": checks,
  "not_applicable": na,
- "notes": "exit 0 = held on everything explored (KNOWN-FINDING lines for open entries of known_findings.json); exit 1 + VIOLATION line = unlisted violation; exit 2 = infrastructure (build failure, watchdog, failure outside x/alliance). Budgets: VERIF_BUDGET_S, VERIF_WORKERS, VERIF_SEED."
+ "notes": "exit 0 = held on everything explored (KNOWN-FINDING lines for open entries of known_findings.json); exit 1 + VIOLATION line = unlisted violation; exit 2 = infrastructure (build failure, a worker that dies, a violation that does not reproduce in a fresh process). Runs abandoned by the 4-minute watchdog and block failures without a frame of the module are NOTE lines and evidence counters, never an exit code. Budgets: VERIF_BUDGET_S, VERIF_WORKERS, VERIF_SEED."
 }
 if not na:
     del m["not_applicable"]
